@@ -71,11 +71,16 @@ def run(ctx):
     rng = random.Random(ctx.seed * 17 + 16)
     from harness.components import bridgemodel
     bridgemodel.model_check(ctx)
-    ctx.run_and_validate(DRIVER, COMP, TRACE, systematic(), 'systematic', nontrivial=nontrivial, known_match=known_match)
+    executed = list(ctx.run_and_validate(DRIVER, COMP, TRACE, systematic(), 'systematic', nontrivial=nontrivial,
+                                         known_match=known_match))
     n = 2500 if ctx.tier == 'quick' else 50000
     for off in range(0, n, 6000):
-        ctx.run_and_validate(DRIVER, COMP, TRACE, gen(rng, min(6000, n - off)), 'scheduled',
-                             nontrivial=nontrivial, known_match=known_match)
+        out = ctx.run_and_validate(DRIVER, COMP, TRACE, gen(rng, min(6000, n - off)), 'scheduled',
+                                   nontrivial=nontrivial, known_match=known_match)
+        if len(executed) < 8000:
+            executed.extend(out)
+    # implementation conformance: a sample of the recorded executions against IterBridge.tla itself
+    bridgemodel.conformance(ctx, executed, limit=32 if ctx.tier == 'quick' else 400)
     return ctx.finish(
         rule='sources of length 0..6 (list, tuple, range, generator, iterator, map object, __next__ class, async '
              'generator) over values incl. None / duplicates / falsy, a failure at every position or none, producer '
